@@ -94,10 +94,12 @@ let show_res0 f = function
 
 let handle kind a =
   match kind with
-  | "hist" ->
+  | "hist" | "hidx" ->
+      (* run_bs = the history runner over the exact binary search of slice::partition_point
+         (proved equal to `run` on sorted indexes) *)
       if a.(0) = "mt" then None else begin
         let f = parse_frames a.(1) and idx = parse_index a.(2) and ops = parse_ops a.(3) in
-        let steps = run pinned_tree_repaired f idx (init f) ops in
+        let steps = run_bs pinned_tree_repaired f idx (init f) ops in
         let rec go acc = function
           | [] -> List.rev acc
           | (o, vp) :: r ->
@@ -124,7 +126,16 @@ let handle kind a =
       let un = match pa with Some v -> show_vp v | None -> "x" in
       Some (Printf.sprintf "%s %s %s %s %s" (show pa) (show pb) cmp un (show_vp (n_of_dec a.(4))))
   | "gzi" ->
-      Some (show_res show_vp (gzi_query (parse_index a.(0)) (n_of_dec a.(1))))
+      Some (show_res show_vp (gzi_query_bs (parse_index a.(0)) (n_of_dec a.(1))))
+  | "hseek" ->
+      let f = parse_frames a.(0) and fb = bytes_of_hex a.(1) and ops = parse_ops a.(2) in
+      let v = match split_on ':' a.(3) with
+        | [c; u] -> pack (n_of_dec c) (n_of_dec u) | _ -> failwith "hseek target" in
+      let (r, t) = hseek_run f fb ops v in
+      Some (show_res dec_of_n r ^ "@" ^ show_res show_vp t)
+  | "pp" ->
+      let bits = if a.(0) = "_" then [] else List.init (String.length a.(0)) (fun i -> a.(0).[i] = '1') in
+      Some (string_of_int (int_of_nat (partition_point_bs (fun b -> b) bits)))
   | _ -> None
 
 let () = run_driver handle
